@@ -129,13 +129,13 @@ func (w *world) txLine(t *txRec, nonce uint64) string {
 		}
 		switch o.kind {
 		case "VC":
-			kind, value, aux, a, b, c, d = 1, bigOf(o.f[3]).String(), idCb+o.valKey(), u16s(o.f[2])&0xff, u16s(o.f[4]), u16s(o.f[5]), u16s(o.f[6])
+			kind, value, aux, a, b, c, d = 1, valOf(o.f[3]).String(), idCb+o.valKey(), u16s(o.f[2])&0xff, u16s(o.f[4]), u16s(o.f[5]), u16s(o.f[6])
 		case "VU":
 			kind, a, b, c = 2, u16s(o.f[2]), u16s(o.f[3]), u16s(o.f[4])
 		case "VD":
-			kind, value = 3, bigOf(o.f[2]).String()
+			kind, value = 3, valOf(o.f[2]).String()
 		case "VW":
-			kind, value = 4, bigOf(o.f[3]).String()
+			kind, value = 4, valOf(o.f[3]).String()
 			if ad, err := w.addrOf(o.f[2]); err == nil {
 				aux = w.idOf(ad)
 			}
@@ -144,9 +144,9 @@ func (w *world) txLine(t *txRec, nonce uint64) string {
 		case "VT":
 			kind = 6
 		case "DA":
-			kind, value = 16, bigOf(o.f[2]).String()
+			kind, value = 16, valOf(o.f[2]).String()
 		case "DS":
-			kind, value = 17, bigOf(o.f[2]).String()
+			kind, value = 17, valOf(o.f[2]).String()
 		case "DT":
 			kind = 18
 		default:
